@@ -45,6 +45,48 @@ templ t() {
 ").
 Proof. split; vm_compute; reflexivity. Qed.
 
+(* non-vacuity for two input classes of the harness (layout family, goexpr family): a {{ }} block next to other inline content
+   inside single-line elements (it carries a trailing-space mark, so no line break is forced after it), and component
+   calls whose arguments hold raw strings over several lines (lines gofmt would not re-indent are copied verbatim,
+   whatever stray back quotes the other arguments contain) - both are fixed points of the baseline formatter model *)
+Definition c09_gocode_inline := mk [NElem (bs "ul") [] false
+   [NFor (bs "_, item := range items") [NElem (bs "li") [] false [NGoCode (bs "label := f(item)") false SpNone; NStr (bs "label") SpNone] false SpVert]] true SpVert;
+   NElem (bs "p") [] false [NGoCode (bs "n := len(items)") false SpHoriz; NElem (bs "b") [] false [NStr (bs "itoa(n)") SpNone] false SpHoriz; NText (bs "items") SpNone] false SpVert].
+Example C09_ex_gocode_in_single_line_element : unstable_reasons c09_gocode_inline = [] /\ fmt_write c09_gocode_inline = (bs "package p
+
+templ t() {
+	<ul>
+		for _, item := range items {
+			<li>{{ label := f(item) }}{ label }</li>
+		}
+	</ul>
+	<p>{{ n := len(items) }} <b>{ itoa(n) }</b> items</p>
+}
+").
+Proof. split; vm_compute; reflexivity. Qed.
+
+Definition c09_call_raw := mk [NElem (bs "section") [] false
+   [NCall [bs "snippet(""Wrap names in ` characters:"", `select *"; bs "from users"; bs "  where name = 'x'`)"]
+          [bs "snippet(""Wrap names in ` characters:"", `select *"; [x09] ++ bs "from users"; [x09] ++ bs "  where name = 'x'`)"] [];
+    NCall [bs "snippet("; [x09] ++ bs "s,"; [x09] ++ bs "`echo one"; bs "echo two`,"; bs ")"]
+          [bs "snippet("; [x09] ++ bs "s,"; [x09] ++ bs "`echo one"; [x09] ++ bs "echo two`,"; bs ")"] []] true SpVert].
+Example C09_ex_call_with_raw_string_lines : unstable_reasons c09_call_raw = [] /\ fmt_write c09_call_raw = (bs "package p
+
+templ t() {
+	<section>
+		@snippet(""Wrap names in ` characters:"", `select *
+from users
+  where name = 'x'`)
+		@snippet(
+			s,
+			`echo one
+echo two`,
+		)
+	</section>
+}
+").
+Proof. split; vm_compute; reflexivity. Qed.
+
 (* ---------- refutation of full idempotence, one witness per named cause (printed texts shown) ---------- *)
 (* <div>@foo()</div>: a child without trailing-space mark is followed by a forced line break even in a single-line
    element; the printed text is read back with IndentChildren *)
